@@ -174,7 +174,7 @@ PROPS['C09'] = dict(
 )
 
 PROPS['C06'] = dict(
-    theorem='C06_readahead, C06_block_size_ok, C06_in_order, C06_only_producer, C06_never_after_end, C06_demand_scan, C06_demand_pull (Properties/C06.v)',
+    theorem='C06_readahead, C06_block_size_ok, C06_in_order, C06_only_producer, C06_never_after_end, C06_demand_scan, C06_demand_pull, C06_bound (Properties/C06.v)',
     functional=False,
     level_text='Theorems over the memoizer\'s transition system (one producer, any number of readers, every interleaving, any block size B > 0): in every reachable state the '
                'source has been consulted for at most imax + B positions (imax = largest index any wait call carried) and for none before the first wait call; along every trace '
